@@ -276,6 +276,22 @@ class ReshapePlugin(PrimitiveLeafPlugin):
             if any(d is not None for d in x_shape):
                 _stamp_type_and_shape(x_val, x_shape)
 
+        # lax.reshape(x, new_sizes, dimensions) reshapes transpose(x, dimensions)
+        # (JAX's conv batching rule emits it): materialise the permutation first.
+        dimensions = eqn.params.get("dimensions")
+        if dimensions is not None and tuple(dimensions) != tuple(range(len(x_shape))):
+            perm = [int(d) for d in dimensions]
+            permuted = ctx.builder.Transpose(
+                x_val, _outputs=[ctx.fresh_name("reshape_perm")], perm=perm
+            )
+            x_dtype = getattr(getattr(x_val, "type", None), "dtype", None)
+            if x_dtype is not None:
+                permuted.type = ir.TensorType(x_dtype)
+            x_shape = tuple(x_shape[i] for i in perm)
+            _stamp_type_and_shape(permuted, x_shape)
+            _ensure_value_metadata(ctx, permuted)
+            x_val = permuted
+
         # Helpers to make INT64 constants
         def const_i64_vec(vals: np.ndarray) -> ir.Value:
             arr: np.ndarray[Any, Any] = vals.astype(np.int64, copy=False)
